@@ -147,6 +147,17 @@ def r2(F, rep):
                 if len(a) >= 3 and X.strip(a[1])["k"] == "StringLiteral" and X.strip(a[1]).get("v") == name:
                     hit = X.key(a[2], r) == "this." + var
         rep.add("C17-R2", "reader|%s" % name, r.loc(), "state key %s is read into %s" % (name, var), hit, func=r.q)
+        # the writer's source is refreshed by the reader, so that saving right after loading reproduces the state
+        src = "x_reported" if var == "x_ext" else "v_reported"
+        refreshed = False
+        for w2, op in writes_to(r, src):
+            rr = rhs_of(w2)
+            if op == "=" and rr is not None and X.key(rr, r) == "this." + var:
+                facts, _ = C.guard_facts(r, w2)
+                if all("f_cv_extended_Lagrangian" in t[1] for t in facts if len(t) == 2 and t[0] in ("true", "false") and "is_enabled" in t[1]):
+                    refreshed = True
+        rep.add("C17-R2", "reader|%s|reported" % name, r.loc(), "after reading %s the reader sets %s = %s under no flag other than extendedLagrangian: %s" % (
+            name, src, var, refreshed), refreshed, detail="a state saved right after loading would contain a stale %s" % src, func=r.q)
     g = F.one(PROPS)
     f = F.one(INTEG)
     for rep_var, var in (("x_reported", "x_ext"), ("v_reported", "v_ext")):
